@@ -75,12 +75,16 @@ def obligations(tier):
     for code, ar in opcodes():
         if code in CALLS:
             for pv, (ptxt, lo, hi) in PROTOS.items():
+                if not full and code != "CALL" and pv in (1, 3):
+                    continue   # quick tier budget: the vararg and rblk prototypes run for call only (inline/jcall share its code path); thorough runs all
                 nmin, nmax = (0, MAXN) if full else (lo, min(hi, lo + 1))
                 # jcall with 6 operands is part of a known finding (out-of-bounds read of op_modes[5]): no accept path left for proto0
                 obs.append(insn_ob(tier, "insn.%s.proto%d" % (code.lower(), pv), code, nmin, nmax, ["H_PROTO=%d" % pv],
                                    accept=FIXED_IN_REPO or not (code == "JCALL" and pv == 0), what="; prototype p: " + ptxt, timeout=3600 if full else 1800))
         elif code == "RET":
             for fv, (ftxt, nres) in FRES.items():
+                if not full and fv == 3:
+                    continue   # quick tier budget: result types (u8,ld) only in thorough; (f,d) covers the two-result case in quick
                 nmin, nmax = (0, 4) if full else (max(0, nres - 1), nres + 1)
                 obs.append(insn_ob(tier, "insn.ret.res%d" % fv, code, nmin, nmax, ["H_FRES=%d" % fv], nres=nres,
                                    what="; function result types " + ftxt))
